@@ -1040,7 +1040,8 @@ void run_c19(Judge& j, uint64_t n, int64_t only = -1) {
         Scenario base; base.family = "c19-hostile"; base.seed = ctx.seed; base.index = i;
         base.ccfg.keep_alive = 600;     // no keep-alive traffic inside the compared window
         Action r; r.kind = Action::run; base.script.push_back(r);
-        int phase = (int)rng.below(4);   // 0: instead of CONNACK, 1: right after CONNACK, 2: with requests awaiting replies, 3: mid QoS 2
+        int phase = (int)rng.below(5);   // 0: instead of CONNACK, 1: right after CONNACK, 2: with requests awaiting replies, 3: mid QoS 2, 4: mid inbound QoS 2
+        bool inbound_q2 = phase == 4; if (inbound_q2) phase = 1;
         std::string hostile;
         if (phase == 0) {
             // handshake: a mutated CONNACK / AUTH / something else instead of the CONNACK, possibly followed by more bytes
@@ -1094,6 +1095,15 @@ void run_c19(Judge& j, uint64_t n, int64_t only = -1) {
                 std::string enc;
                 for (size_t pl = want > 24 ? want - 24 : 0; pl <= want; ++pl) { p.payload.assign(pl, 'z'); enc = ref::encode(p); if (enc.size() >= want) break; }
                 if (rng.chance(1, 2)) hostile += enc; else hostile = enc + hostile;
+            }
+            if (inbound_q2) {
+                // an inbound QoS 2 exchange whose PUBREL arrives mutated (or a PUBLISH with the reserved QoS 3)
+                ref::Packet q; q.type = ref::PUBLISH; q.qos = 2; q.pid = 90; q.topic = "in/hostile/q2"; q.payload = "two";
+                std::string enc = ref::encode(q);
+                if (rng.chance(1, 6)) enc[0] = char(enc[0] | 0x06);
+                hostile = enc + hostile;
+                ref::Packet rl; rl.type = ref::PUBREL; rl.pid = 90;
+                Action hb2; hb2.kind = Action::hostile_bytes; hb2.at = 320 * MS; hb2.bytes = mutate_packet(rng, g, ref::PUBREL, &rl); base.script.push_back(hb2);
             }
             Action hb; hb.kind = Action::hostile_bytes; hb.at = 200 * MS; hb.bytes = hostile; base.script.push_back(hb);
         }
